@@ -17,11 +17,11 @@ PROP = {
         'log, which is compared as a sorted multiset)',
     ],
     'gaps': [
-        'C20_transparent (full statement: writes at any proxy under active redirection) is FALSE on the current '
-        'code (F10, proved: C20_transparent_false); C20_transparent_partial covers every redirection mode provided '
-        'that, when active redirection is on, write forms are sent to the proxy owning their keys (reads anywhere)',
         'not modelled: multi-key DEL/EXISTS, blocking commands, EVAL/EVALSHA, non-data commands, requests with '
         'non-bulk elements, compression while a slot is migrating (MigrationBackend paths), strategy change on live data',
+        'a command carrying the internal UMFORWARD mark is trusted (not re-checked against the restricted list, not '
+        'compressed): C20_restricted_refused and C20_transparent speak about commands sent by clients, and UMFORWARD '
+        'itself is not a Supported client command',
     ],
     'trusted': [
         'UmModel/Compress.lean is a hand transliteration (tables, dispatch arms, error mapping and constants are '
@@ -35,22 +35,22 @@ PROP = {
 }
 
 CHECK = {
-    'design_ref': '§6 C20, §7 F10',
+    'design_ref': '§6 C20, §7 F10 (fixed 04a2318)',
     'technique': 'Lean 4 theorems (simulation against the compression-disabled cluster, unbounded command '
                  'sequences, any codec/layout/strategy) + differential correspondence (two real ForwardHandlers, '
                  'storing fake Redis, real zstd) + property oracle on the implementation',
-    'text': 'Proved for every lawful codec, enabled strategy, slot/owner layout, hop budget and sequence of supported '
-            'commands (SET+any options, SETEX, PSETEX, SETNX, GETSET, MSET, MSETNX, GET, MGET, pass-through commands) '
-            'sent to arbitrary proxies: client replies equal those of the same cluster with compression disabled, stores '
-            'hold exactly enc(plain store), backends receive exactly the rewritten commands (only value positions '
-            'changed; keys, options, ttl arguments untouched); non-bulk replies are never altered; in set_get_only '
-            'every string command that inspects value bytes is refused before routing (also inside UMFORWARD). '
-            'Restriction: with active redirection, writes must be issued at the owner proxy — the unrestricted '
-            'statement is proved FALSE (known finding F10: forwarded writes are compressed twice; reproduced on the '
-            'real handlers with real zstd, fix proposed in .build/patches/f10.diff). Model tied to the code by '
-            'generated tables and by replaying corpus + generated command sequences through the real handlers.',
+    'text': 'Proved for every lawful codec, enabled strategy, slot/owner layout, redirection mode (client-followed MOVED '
+            'or active redirection with UMFORWARD hops), hop budget and sequence of supported commands (SET+any options, '
+            'SETEX, PSETEX, SETNX, GETSET, MSET, MSETNX, GET, MGET, pass-through commands) sent to arbitrary proxies '
+            '(C20_transparent, full statement): client replies equal those of the same cluster with compression disabled, '
+            'stores hold exactly enc(plain store), backends receive exactly the rewritten commands (only value positions '
+            'changed; keys, options, ttl arguments untouched); non-bulk replies are never altered; in set_get_only every '
+            'string command that inspects value bytes is refused before routing. F10 (forwarded writes compressed '
+            'twice) was found by this check, fixed in repo commit 04a2318 and is kept as a regression corpus case; the '
+            'oracle now treats any double compression as a violation. Model tied to the code by generated tables, '
+            'shape pins of the transliterated functions, and by replaying corpus + generated command sequences '
+            'through two real ForwardHandlers with real zstd.',
     'note': 'Trusted: Lean kernel; Codec law as the only fact about zstd; hand transliteration of the executor/'
             'manager control flow (differentially checked: replies, backend command logs, logical store contents); '
-            'consistent cluster metadata; no migration. F10 is reported as KNOWN-FINDING until the patch is applied; '
-            'after applying it the model (handleSingle, sendCmd, handleMsetnx) must follow and C20_transparent becomes provable.',
+            'consistent cluster metadata; no migration; commands carrying the UMFORWARD mark come from peer proxies.',
 }
